@@ -166,6 +166,30 @@ int main(int argc,char **argv)
 			}
 		}
 	}
+	else if(mode=="refill") {
+		// process-shared cache: fill beyond capacity, clear, refill - the number of entries that fit must not shrink
+		// usage: cache_drv refill process <limit> <names(ignored)> <cycles> <value-size>
+		int cycles=atoi(argv[5]); int vsize=atoi(argv[6]);
+		process_backend=true; reset();
+		for(int c=0;c<cycles;c++) {
+			int stored=0;
+			for(int i=0;i<3000;i++) {
+				char key[32]; snprintf(key,sizeof(key),"key%d_%d",c%3,i);
+				std::string v(vsize + (i%7)*16, char('a'+i%26));
+				std::set<std::string> trig; trig.insert(nm(i%5));
+				cache->store(key,v,trig,vt::clock_base+100);
+				stored++;
+			}
+			unsigned k=0,t=0; cache->stats(k,t);
+			// how many of the most recent keys are really retrievable
+			int found=0;
+			for(int i=0;i<3000;i++) { char key[32]; snprintf(key,sizeof(key),"key%d_%d",c%3,i); std::string v; if(cache->fetch(key,&v,0,0,0)) { found++; if(v.size()!=size_t(vsize+(i%7)*16)) found=-100000; } }
+			tr.line(vt::J().s("e","Fill").i("cycle",c).i("stored",stored).i("keys",k).i("trigs",t).i("found",found).str());
+			if(c%2==0) cache->clear(); else { for(int i=0;i<5;i++) cache->rise(nm(i)); }
+			cache->stats(k,t);
+			tr.line(vt::J().s("e","Emptied").i("keys",k).i("trigs",t).str());
+		}
+	}
 	else if(mode=="script") {
 		reset();
 		std::string w;
